@@ -253,8 +253,17 @@ fn execute(ch: &mut Chooser, ctx: &WorkerCtx, ncallers: usize, with_close: bool)
 /// A long sequential history: call 0 is never answered in time; each of the next `n` calls is answered properly, but
 /// first the peer sends (again) the late reply of call 0, addressed to call 0's reply identifier. Every call must
 /// return its own answer, whatever the node does with identifiers of finished calls, and nothing may stay registered.
-fn straggler_exec(n: &usize, ctx: &WorkerCtx) -> ExecResult {
-    let n = *n;
+fn straggler_exec(case: &(usize, u32), ctx: &WorkerCtx) -> ExecResult {
+    let (n, creation) = *case;
+    // the node's creation as EPMD assigns it: a large one, and a small one that survives the two significant bits of the
+    // legacy pid encoding
+    crate::world::set_epmd_creation(Some(creation));
+    let r = straggler_inner(n, ctx);
+    crate::world::set_epmd_creation(None);
+    r
+}
+
+fn straggler_inner(n: usize, ctx: &WorkerCtx) -> ExecResult {
     run_rt(async move {
         let mut res = ExecResult::default();
         let mut nw = match node_world(ctx, flags_default()).await {
@@ -284,6 +293,21 @@ fn straggler_exec(n: &usize, ctx: &WorkerCtx) -> ExecResult {
                 first_reply_to = Some(to);
                 tokio::time::advance(Duration::from_secs(6)).await; // call 0 times out unanswered
             } else {
+                // near misses addressed to nobody: a SEND whose destination is written in the legacy pid encoding with this
+                // call's id + 2^15, and a SEND_SENDER *from* a peer process that happens to carry this call's numbers
+                if let RefVal::Pid { node, id, serial, creation } = &to {
+                    let mut b = vec![112u8, 131, 104, 3, 97, 2, 119, 0, 103, 119, node.len() as u8];
+                    b.extend_from_slice(node.as_bytes());
+                    b.extend_from_slice(&(id + 32768).to_be_bytes()); b.extend_from_slice(&serial.to_be_bytes()); b.push((*creation & 3) as u8);
+                    b.push(131);
+                    vcore::refcodec::w_term(&mut b, &RefVal::Tuple(vec![RefVal::atom("rex"), RefVal::atom("for_a_pid_32768_higher")]));
+                    nw.peer.send(&frame(&b, 4));
+                    let from_peer = RefVal::Pid { node: PEER_NAME.into(), id: *id, serial: *serial, creation: *creation };
+                    let nobody = RefVal::Pid { node: node.clone(), id: 600_000 + k as u32, serial: 9, creation: *creation };
+                    let m = DistMsg { control: RefVal::Tuple(vec![RefVal::int(22), from_peer, nobody]), payload: Some(RefVal::Tuple(vec![RefVal::atom("rex"), RefVal::atom("from_a_namesake")])) };
+                    nw.peer.send(&frame(&write_pass_through(&m), 4));
+                    nw.w.settle(&mut nw.peer, &probe).await;
+                }
                 nw.peer.send(&reply_frame(first_reply_to.as_ref().unwrap(), 0)); // straggler for the finished call 0
                 nw.w.settle(&mut nw.peer, &probe).await;
                 nw.peer.send(&reply_frame(&to, k as i64));
@@ -417,7 +441,7 @@ pub fn run(rep: &Report) -> Value {
         let st = explore(rep, &name, bound, cap, |ch, ctx| execute(ch, ctx, ncallers, with_close));
         all.push((name, st));
     }
-    let lens: Vec<usize> = if thorough { vec![70, 300] } else { vec![70] };
+    let lens: Vec<(usize, u32)> = if thorough { vec![(70, 77), (70, 3), (300, 77), (300, 1)] } else { vec![(70, 77), (40, 3)] };
     let st_s = crate::explore::for_all(rep, "late reply of a finished call re-sent before each later reply", &lens, |n, ctx| straggler_exec(n, ctx));
     let nf = vec![0usize, 1, 2, 3];
     let st_fn = crate::explore::for_all(rep, "calls failing on another connection between waiting calls", &nf, |n, ctx| failing_neighbour_exec(n, ctx));
@@ -435,6 +459,6 @@ pub fn run(rep: &Report) -> Value {
         "exhaustive": all.iter().all(|(_, s)| s.exhaustive),
         "scenarios": all.iter().map(|(n, s)| json!({"scenario": n, "executions": s.executions, "deviation_bound_completed": s.bound_completed, "distinct_outcomes": s.distinct_outcomes, "outcomes": s.outcomes, "max_decision_points": s.max_points, "unstable_failures_not_reported": s.unstable, "replay_divergences": s.diverged})).collect::<Vec<_>>(),
         "distinct_outcomes": all.iter().map(|(_, s)| s.distinct_outcomes).sum::<usize>(),
-        "rule": "stateless exploration of the real Node/Connection code on a single-threaded tokio runtime with a controller-owned clock, a scripted peer on loopback and gate hooks: at every decision point the enabled set = parked gates (rpc table steps, completed frame writes, route miss) + environment events (reply k, duplicated reply, reply to an unknown pid, reply to the caller's pid under another creation, timer k, peer close), two callers made runnable in the same tick, and per-caller cooperative-budget preemption (0..9 units left); all executions with at most `bound` non-default choices; states = complete executions; plus one (thorough: two) sequential history of 71 (301) calls in which the first call times out and its late reply is re-sent before the reply of every later call, four histories in which 0..3 calls held at a broken second connection fail between calls to the healthy peer, and two histories (raw entry point and public wrapper) in which the peer stops reading under a 24 MiB request while a second caller with a 2 s timeout waits for the connection",
+        "rule": "stateless exploration of the real Node/Connection code on a single-threaded tokio runtime with a controller-owned clock, a scripted peer on loopback and gate hooks: at every decision point the enabled set = parked gates (rpc table steps, completed frame writes, route miss) + environment events (reply k, duplicated reply, reply to an unknown pid, reply to the caller's pid under another creation, timer k, peer close), two callers made runnable in the same tick, and per-caller cooperative-budget preemption (0..9 units left); all executions with at most `bound` non-default choices; states = complete executions; plus one (thorough: two) sequential history of 71 (301) calls in which the first call times out and its late reply is re-sent (together with two near misses: a legacy-encoded destination 2^15 higher, and a SEND_SENDER from a namesake on the peer) before the reply of every later call, four histories in which 0..3 calls held at a broken second connection fail between calls to the healthy peer, and two histories (raw entry point and public wrapper) in which the peer stops reading under a 24 MiB request while a second caller with a 2 s timeout waits for the connection",
     })
 }
